@@ -81,7 +81,8 @@ def check(run, model, tier):
     flag = None
     for n in walk_shallow(st.node):
         if isinstance(n, ast.If):
-            inner, pol = strip_not(n.test)
+            from sa.util import expand_locals as _xl0
+            inner, pol = strip_not(_xl0(n.test, st.node, params=st.params))
             d = dotted(inner)
             if d and d.startswith(st.params[0] + '.'):
                 flag = d.split('.', 1)[1]
@@ -156,7 +157,7 @@ def check(run, model, tier):
                         if f is st:
                             # in __set__ the thread may already hold the lock only if the flag says so: judge the *decision* read
                             ok = min(depths) >= 1
-                            run.inst('LOCKSET.flag-access', f, 'read %s in %s' % (attr, n.text()), ok,
+                            run.inst('LOCKSET.flag-access', f, 'read %s in test self.%s' % (attr, attr), ok,
                                      '' if ok else ('__set__ reads the shared flag %s before it holds the lock: a plain assignment racing with another '
                                                     'thread\'s augmented assignment sees that thread\'s "non-atomic" flag, skips acquire, and releases '
                                                     'a lock it does not own (RuntimeError) or overwrites inside the other thread\'s critical section' % attr),
@@ -206,7 +207,8 @@ def check(run, model, tier):
                          '' if ok2 else 'the value is stored before the lock is taken', node=s.ast, obligation=True)
             # the acquire is on the "flag says atomic" branch only
             for a in acq:
-                tests = [t for t in g.nodes if t.kind == 'test' and flag and flag in norm(t.ast)]
+                from sa.util import expand_locals as _xl27
+                tests = [t for t in g.nodes if t.kind == 'test' and flag and flag in norm(_xl27(t.ast, f.node, params=f.params))]
                 run.inst('LOCKSET.balance', f, 'acquire only when not continuing', bool(tests) and any(g.dominates(t, a) for t in tests),
                          'acquire in __set__ is not conditional on the hand-over flag', node=a.ast, nontrivial=True)
     if flag is None:
